@@ -1067,6 +1067,7 @@ class VExc(W):
     self.args = args or []
     self.note = note
     self.origin = 'callee'
+    self.raised_by = None      # qualified name of the callee whose contract raised it
     cn = None
     for n, c in _EXC_CONSTS.items():
       if c.eq(self.cls):
